@@ -401,6 +401,9 @@ pub struct Scn {
     pub s2c: DirSpec,
     pub sched: Sched,
     pub order: Order,
+    /// uniform one-way link latency in rounds: every packet the schedule
+    /// would deliver at once is held this long instead
+    pub latency: u32,
 }
 
 impl Scn {
@@ -421,7 +424,7 @@ impl Scn {
             }}),
         };
         json!({"cfg": self.cfg.to_json(), "c2s": self.c2s.to_json(), "s2c": self.s2c.to_json(),
-               "sched": sched, "order": self.order.canon()})
+               "sched": sched, "order": self.order.canon(), "latency": self.latency})
     }
 
     pub fn from_json(v: &Value) -> Option<Scn> {
@@ -449,6 +452,7 @@ impl Scn {
             s2c: DirSpec::from_json(&v["s2c"]),
             sched,
             order: Order::parse(v["order"].as_str().unwrap_or("emission")),
+            latency: v["latency"].as_u64().unwrap_or(0) as u32,
         })
     }
 
@@ -472,6 +476,9 @@ impl Scn {
         );
         if self.order != Order::Emission {
             s.push_str(&format!("|order={}", self.order.canon()));
+        }
+        if self.latency > 0 {
+            s.push_str(&format!("|lat={}", self.latency));
         }
         s
     }
